@@ -168,7 +168,7 @@ def gen(rng, tier, ctx):
                    {"op": "cli_pair", "sched": rng.randint(0, 2 ** 32), "p": rng.choice([0.1, 0.3, 0.3, 0.6]),
                     "a": {"games": ga, "stem": "batch_a", "style": rng.choice(textstyle.STYLES), "entropy": rng.randint(0, 2 ** 32)},
                     "b": {"games": gb, "stem": "batch_b", "style": rng.choice(textstyle.STYLES), "entropy": rng.randint(0, 2 ** 32)}})
-    return {"cfg": {"klass": klass}, "pool": pool, "ops": opl}
+    return {"cfg": {"klass": klass, "share_equal_lists": rng.random() < 0.5}, "pool": pool, "ops": opl}
 
 
 def readable(spec):
@@ -299,6 +299,15 @@ def check_entries(i_op, spec, games, result, ctx, w, states):
 def execute(spec, w, ctx):
     pool = spec["pool"]
     live = [dec(p["desc"]) for p in pool]
+    if (spec.get("cfg") or {}).get("share_equal_lists"):
+        # games built from one another (`dict(base, players=...)`) share the list objects they have in common
+        for j in range(len(live)):
+            for i in range(j):
+                if isinstance(live[i], dict) and isinstance(live[j], dict):
+                    for fld in ("transition_list", "final_states", "rewards", "players"):
+                        a_, b_ = live[i].get(fld), live[j].get(fld)
+                        if isinstance(a_, list) and isinstance(b_, list) and a_ is not b_ and canon(a_) == canon(b_):
+                            live[j][fld] = a_
     events, states, discards = [], [], {}
     res = {"events": events, "states": states, "discards": discards, "violation": None, "known": []}
     kinds = {}
